@@ -61,6 +61,16 @@ def cases(tier, seed):
         lat = rng.sample(range(n), k) if rng.random() < 0.5 else []
         out.append({"kind": "rand", "n": n, "nodes": nodes, "edges": edges, "style": style, "lat": lat,
                     "nameseed": rng.randint(0, 10**9), "qseed": rng.randint(0, 10**9)})
+    # edit sessions: ONE DAG object is edited between queries (edge swaps that keep node and edge counts,
+    # reversals, additions, removals): answers must follow the current graph, not any earlier one
+    nsess = 60 if tier == "quick" else 600
+    for i in range(nsess):
+        n = rng.randint(3, 7)
+        nodes, edges = common.rand_dag(rng, n)
+        out.append({"kind": "session", "n": n, "nodes": nodes, "edges": edges,
+                    "style": rng.choice(common.NAME_STYLES), "lat": [],
+                    "nameseed": rng.randint(0, 10**9), "qseed": rng.randint(0, 10**9),
+                    "steps": rng.randint(3, 7)})
     return out
 
 
@@ -398,7 +408,118 @@ def run_exhlat(case, drv):
               tags=["exhlat n=%d" % n, "latent-sets=%d" % len(case["lats"])])
 
 
+def _acyclic(n, edges):
+    indeg = {v: 0 for v in range(n)}
+    adj = {v: [] for v in range(n)}
+    for u, v in edges:
+        adj[u].append(v)
+        indeg[v] += 1
+    stack = [v for v in range(n) if indeg[v] == 0]
+    seen = 0
+    while stack:
+        u = stack.pop()
+        seen += 1
+        for v in adj[u]:
+            indeg[v] -= 1
+            if indeg[v] == 0:
+                stack.append(v)
+    return seen == n
+
+
+def run_session(case, drv):
+    g, names, nodes = build(case)
+    n = case["n"]
+    edges = [tuple(e) for e in case["edges"]]
+    rng = random.Random(case["qseed"])
+    idx = {repr(nm): i for i, nm in enumerate(names)}
+    tags = ["session n=%d" % n]
+    history = []
+
+    def query_all(step):
+        for _ in range(3):
+            start = rng.randrange(n)
+            rest = [v for v in range(n) if v != start]
+            Z = rng.sample(rest, rng.randint(0, len(rest)))
+            exp = model_atn(drv, nodes, [list(e) for e in edges], start, Z)
+            got = g.active_trail_nodes(names[start], observed=[names[z] for z in Z], include_latents=True)
+            have = {idx[repr(x)] for x in got[names[start]]}
+            if have != exp:
+                return bad("impl!=model:session-active_trail_nodes",
+                           {"step": step, "history": history, "edges_now": sorted(edges), "start": start,
+                            "Z": sorted(Z), "impl": sorted(have), "model": sorted(exp)})
+            for end in rest:
+                if end in Z:
+                    continue
+                d = g.is_dconnected(names[start], names[end], observed=[names[z] for z in Z])
+                if d != (end in exp):
+                    return bad("impl!=model:session-is_dconnected",
+                               {"step": step, "history": history, "edges_now": sorted(edges), "start": start,
+                                "end": end, "Z": sorted(Z), "impl": d, "model": end in exp})
+            ns = rng.sample(range(n), rng.randint(1, n))
+            _, _, agn, age, _, anc = drv.call("c08_misc", [nodes, [list(e) for e in edges], start, ns])
+            ganc = sorted(idx[repr(u)] for u in g._get_ancestors_of([names[u] for u in ns]))
+            if ganc != sorted(anc):
+                return bad("impl!=model:session-ancestors", {"step": step, "history": history,
+                                                               "edges_now": sorted(edges), "ns": ns,
+                                                               "impl": ganc, "model": sorted(anc)})
+        return None
+
+    b = query_all(0)
+    if b:
+        return b
+    for step in range(1, case["steps"] + 1):
+        kind = rng.choice(["swap", "swap", "reverse", "add", "remove"])
+        eset = set(edges)
+        done = None
+        if kind in ("swap", "reverse", "remove") and edges:
+            e = rng.choice(edges)
+            if kind == "remove":
+                g.remove_edge(names[e[0]], names[e[1]])
+                edges.remove(e)
+                done = ["remove", list(e)]
+            elif kind == "reverse":
+                cand = [x for x in edges if x != e] + [(e[1], e[0])]
+                if _acyclic(n, cand):
+                    g.remove_edge(names[e[0]], names[e[1]])
+                    g.add_edge(names[e[1]], names[e[0]])
+                    edges.remove(e)
+                    edges.append((e[1], e[0]))
+                    done = ["reverse", list(e)]
+            else:
+                pool = [(u, v) for u in range(n) for v in range(n) if u != v and (u, v) not in eset and (v, u) not in eset]
+                rng.shuffle(pool)
+                for f in pool:
+                    cand = [x for x in edges if x != e] + [f]
+                    if _acyclic(n, cand):
+                        g.remove_edge(names[e[0]], names[e[1]])
+                        g.add_edge(names[f[0]], names[f[1]])
+                        edges.remove(e)
+                        edges.append(f)
+                        done = ["swap", list(e), list(f)]
+                        break
+        if done is None:
+            pool = [(u, v) for u in range(n) for v in range(n) if u != v and (u, v) not in eset and (v, u) not in eset]
+            rng.shuffle(pool)
+            for f in pool:
+                if _acyclic(n, edges + [f]):
+                    g.add_edge(names[f[0]], names[f[1]])
+                    edges.append(f)
+                    done = ["add", list(f)]
+                    break
+        if done is None:
+            continue
+        history.append(done)
+        tags.append("edit=" + done[0])
+        b = query_all(step)
+        if b:
+            return b
+    return ok(nontrivial=len(history) > 0,
+              key=common.canon_key(["session", n, sorted(map(tuple, case["edges"])), case["qseed"]]), tags=tags)
+
+
 def run_case(case, drv):
+    if case["kind"] == "session":
+        return run_session(case, drv)
     if case["kind"] == "exh":
         return run_exh(case, drv)
     if case["kind"] == "exhlat":
